@@ -434,13 +434,37 @@ def c09(ctx):
     allev += ev2
     # the stack region the call used, in a build without compiler-introduced spill copies
     ctx.build("O0")
-    ev3 = ctx.run_xcv(["stack 1"] + script()[: (400 if quick else 100000)], flavour="O0")
+
+    def stack_script():
+        cmds = ["scan 1", "stack 1", "hset 0 0 0"]
+        for m in cfgev["E"]:
+            for n in ((8, 33, 64, 200) if quick else (8, 9, 16, 32, 33, 40, 63, 64, 65, 72, 73, 127, 128, 129, 200, 256, 511)):
+                ph, s = gen.rand_phrase(rng, n), cheap_setting(m, rng)
+                cmds.append("obj 0 %d 1" % rng.randrange(16))
+                cmds.append("%s 0 %s %s" % (rng.choice(("crypt_rn", "crypt_r")), hx(ph), hx(s)))
+            ph = gen.rand_phrase(rng, 24)
+            cmds.append("crypt - %s %s" % (hx(ph), hx(cheap_setting(m, rng))))
+            cmds.append("crypt_ra 0 %s %s" % (hx(ph), hx(cheap_setting(m, rng))))
+            cmds.append("crypt_rn 0 %s %s 32768" % (hx(ph), hx(METHFAIL.get(m) or "$9$x")))
+        return cmds
+    ev3 = ctx.run_xcv(stack_script(), flavour="O0")
     v.append(judge(ctx, ev3, "stack", config_event(ctx, "O0")))
     allev += ev3
+    # crypt_gensalt erases the random bytes it drew (successful and failing requests), heap and O0 stack
+    gcmds = ["scan 1", "stack 1", "entropy 0 %d" % (ctx.seed % 100 + 3)]
+    for m in cfgev["E"]:
+        for fn in ("gensalt_rn", "gensalt", "gensalt_ra"):
+            for cnt in (0, 3, 12, 32, 999999):
+                gcmds.append(gs_cmd(fn, gen.PREFIX[m], cnt, None))
+            for sz in (3, 12, 20, 30, 60):
+                if fn == "gensalt_rn":
+                    gcmds.append(gs_cmd(fn, gen.PREFIX[m], 0, None, "len", sz))
+    ev4 = ctx.run_xcv(gcmds, flavour="O0")
+    vg = judge_gs(ctx, ev4, "gs", config_event(ctx, "O0"))
     attribute(ctx)
     cov = mc_coverage(ctx, st, tr, v, allev,
-                      {"behaviours_replayed": len(behs),
-                       "predicates": ["Wiped (scratch zero iff validated, else untouched)",
+                      {"behaviours_replayed": len(behs), "gensalt_calls_judged": sum(x["cnt"]["calls"] for x in vg),
+                       "predicates": ["EntropyErased (gensalt wipes what it drew; no needle on the O0 stack)", "Wiped (scratch zero iff validated, else untouched)",
                                       "NoLeak (no passphrase needle in object, freed heap, unmapped regions, O0 stack)",
                                       "Grow (undersized crypt_ra block erased before realloc)"],
                        "needle_encodings": ["raw", "<<1", "^0x36", "^0x5c", "UCS-2LE", "bswap32", "bswap64"]})
@@ -747,11 +771,14 @@ def c10(ctx):
     E = cfgev["E"]
     cmds = ["entropy 0 %d" % (ctx.seed % 200 + 1), "hset 0 0 0"]
     nrs = [None, 0, 2, 3, 8, 15, 16, 20, 32, 64, 65, 256] if quick else [None] + list(range(0, 70)) + [100, 128, 255, 256]
-    counts = [0, 1, 4, 5, 6, 11, 12, 31, 32, 1000, 5000, 99999, 2 ** 32, 2 ** 64 - 1] if quick else GS_COUNTS_ALL
+    counts = [0, 1, 4, 5, 6, 11, 12, 31, 32, 1000, 5000, 99999, 16777215, 16777216, 999999999, 4294901759, 4294901760, 4294967295,
+              2 ** 32, 2 ** 64 - 1] if quick else GS_COUNTS_ALL
     for pfx in GS_PREFIXES:
         for c in counts:
             for nr in (nrs if c in (0, 4, 6, 1000) or not quick else nrs[:1] + [16, 64]):
                 rb = None if nr is None else bytes(rng.randrange(256) for _ in range(nr))
+                if rb and c > 2 ** 31 and rng.random() < 0.7:
+                    rb = b"\xff" * len(rb)                 # the extreme of the randomised cost windows
                 for fn in ("gensalt_rn", "gensalt", "gensalt_ra") + (("gensalt_r", "xgensalt_r", "xgensalt") if nr == 16 else ()):
                     cmds.append(gs_cmd(fn, pfx, c, rb))
     ev1 = ctx.run_xcv(cmds)
